@@ -17,8 +17,8 @@
       (non-empty address, step, index in range, address of that index, signature);
       [first_valid ... ops i]: the first vote of [ops] with index [i] that does. *)
 From Coq Require Import List ZArith NArith Bool.
-From Kardia Require Import Base.Int64 C02.Model C02.Proofs C02.ProofsLists C02.ProofsVoteSet
-     C02.ProofsExamples Generated.C02Facts.
+From Kardia Require Import Base.Int64 C02.Model C02.ModelExt C02.Proofs C02.ProofsLists C02.ProofsVoteSet
+     C02.ProofsExamples C02.ProofsExt C02.ProofsCtv Generated.C02Facts.
 Local Open Scope Z_scope.
 
 (** "+2/3" is strict: the integer quorum the code computes is reached exactly when the
@@ -196,10 +196,128 @@ Theorem C02_hypotheses_satisfiable :
 Proof. exact hypotheses_satisfiable. Qed.
 Print Assumptions C02_hypotheses_satisfiable.
 
+(** The first reported majority is final: whatever is added afterwards (conflicting votes admitted through
+    peer claims, a second quorum for another id), TwoThirdsMajority keeps reporting it (any state). *)
+Theorem C02_maj23_stable :
+  forall s ops m, vs_maj23 s = Some m -> vs_maj23 (final s ops) = Some m.
+Proof. exact maj23_stable. Qed.
+Print Assumptions C02_maj23_stable.
+
+(** CommitToVoteSet is the inverse of MakeCommit: for a reachable precommit vote set (height >= 1) with
+    wire-valid votes and a complete majority id, rebuilding a vote set from MakeCommit's output does not
+    panic, reports the same majority, and MakeCommit of it gives the same commit back. *)
+Theorem C02_commit_to_voteset_inverse :
+  forall chain ht rd vals, wf_vals vals -> forall ops b,
+    let s := final (new_voteset chain ht rd PRECOMMIT vals) ops in
+    (forall v, offered ops v -> bid_is_zero (v_bid v) = true \/ bid_is_complete (v_bid v) = true) ->
+    vs_maj23 s = Some b -> bid_is_complete b = true -> ht <> 0%N ->
+    exists c s2, make_commit s = Some c /\ commit_to_voteset chain c vals = Some s2 /\
+                 vs_maj23 s2 = Some b /\ make_commit s2 = Some c.
+Proof. exact commit_to_voteset_inverse. Qed.
+Print Assumptions C02_commit_to_voteset_inverse.
+
+(** Vote.ValidateBasic (what the reactor enforces on receipt) gives the wire-validity hypothesis used above;
+    Vote.Verify accepts exactly the votes naming the given address and carrying its valid signature. *)
+Theorem C02_validate_basic_wire :
+  forall v, vote_validate_basic v = true ->
+    (bid_is_zero (v_bid v) = true \/ bid_is_complete (v_bid v) = true) /\ s_empty (v_sig v) = false /\
+    (v_type v = PREVOTE \/ v_type v = PRECOMMIT).
+Proof. exact validate_basic_wire. Qed.
+Print Assumptions C02_validate_basic_wire.
+
+Theorem C02_vote_verify_ok :
+  forall chain addr v, vote_verify chain addr v = VVOk <-> v_addr v = addr /\ vote_sig_valid chain addr v = true.
+Proof. exact vote_verify_ok. Qed.
+Print Assumptions C02_vote_verify_ok.
+
+(** VerifyCommit as the code has it (nil commit = error; a slot with an unknown BlockIDFlag panics in
+    CommitSig.BlockID): on every commit whose slots ValidateBasic examined (height >= 1) there is no panic
+    and the answer is [verify_commit]'s; and whenever it answers ok, so does [verify_commit] — hence
+    C02_verify_commit_sound / _addresses hold for the extended function at every height. *)
+Theorem C02_verify_commit_x_validated :
+  forall vals chain want h c, (1 <= c_height c)%N ->
+    verify_commit_x vals chain want h (Some c) = XErr (verify_commit vals chain want h c).
+Proof. exact verify_commit_x_validated. Qed.
+Print Assumptions C02_verify_commit_x_validated.
+
+Theorem C02_verify_commit_x_ok :
+  forall vals chain want h c,
+    verify_commit_x vals chain want h (Some c) = XErr COk -> verify_commit vals chain want h c = COk.
+Proof. exact verify_commit_x_ok. Qed.
+Print Assumptions C02_verify_commit_x_ok.
+
+(** HeightVoteSet (consensus/types/height_vote_set.go).  [hvs_run s0 hops = Some s]: [s] is reached from
+    NewHeightVoteSet by the calls [hops] (SetRound / AddVote by any peer / SetPeerMaj23), none of which
+    panicked; [offered_h hops v]: [v] was passed to AddVote by some peer.
+    Every per-round vote set is a reachable VoteSet of that height, round and type whose history consists
+    of votes offered to the HeightVoteSet, so every vote-set theorem above applies to it. *)
+Theorem C02_hvs_sets_reachable :
+  forall chain ht vals s0 hops s r ty vs,
+    hvs_new chain ht vals = Some s0 -> hvs_run s0 hops = Some s ->
+    type_valid ty = true -> get_vs s r ty = Some vs ->
+    exists ops, vs = final (new_voteset chain ht r ty vals) ops /\
+                forall v, In (OpVote v) ops -> offered_h hops v.
+Proof. exact hvs_sets_reachable. Qed.
+Print Assumptions C02_hvs_sets_reachable.
+
+(** POLInfo is sound: the round it names lies in 1..hvs.round and distinct validators (one list position
+    each) holding strictly more than 2/3 of the power sent valid prevotes of this height and exactly that
+    round, offered to this HeightVoteSet, for exactly that block id. *)
+Theorem C02_hvs_pol_sound :
+  forall chain ht vals, wf_vals vals -> forall s0 hops s r b,
+    hvs_new chain ht vals = Some s0 -> hvs_run s0 hops = Some s ->
+    pol_info s = (r, b) -> r <> 0%N ->
+    (1 <= r <= h_round s)%N /\
+    exists w : list (option vote),
+      length w = length vals /\
+      (forall i v, vote_at w i = Some v ->
+         offered_h hops v /\ valid_vote_of chain ht r PREVOTE vals i v /\ v_bid v = b) /\
+      2 * sum_powers vals < 3 * voters_power vals w.
+Proof. exact pol_sound. Qed.
+Print Assumptions C02_hvs_pol_sound.
+
+(** ... and it names the LATEST such round: no later round up to hvs.round has a prevote majority (any
+    state); with no round named, the block id is the zero id. *)
+Theorem C02_hvs_pol_latest :
+  forall s r b, pol_info s = (r, b) ->
+    forall r', (r < r' <= h_round s)%N -> forall vs, get_vs s r' PREVOTE = Some vs -> vs_maj23 vs = None.
+Proof. exact pol_latest. Qed.
+Print Assumptions C02_hvs_pol_latest.
+
+Theorem C02_hvs_pol_none_zero : forall s b, pol_info s = (0%N, b) -> b = bid_zero.
+Proof. exact pol_none_zero. Qed.
+Print Assumptions C02_hvs_pol_none_zero.
+
+(** Catch-up rounds are bounded: no peer's list of opened rounds exceeds two; every open round is round 1,
+    at most a round the node itself passed to SetRound, or in some peer's list; all of 1..hvs.round exist. *)
+Theorem C02_hvs_catchup_bounded :
+  forall chain ht vals s0 hops s,
+    hvs_new chain ht vals = Some s0 -> hvs_run s0 hops = Some s ->
+    (forall p, (length (cu_find p (h_catchup s)) <= 2)%nat) /\
+    (forall r, rs_find r (h_sets s) <> None ->
+       r = 1%N \/ (exists r0, In (HSetRound r0) hops /\ (r <= r0)%N) \/ exists p, In r (cu_find p (h_catchup s))) /\
+    (forall k, (1 <= k <= h_round s)%N -> rs_find k (h_sets s) <> None).
+Proof. exact catchup_bounded. Qed.
+Print Assumptions C02_hvs_catchup_bounded.
+
+(** Non-vacuity of the HeightVoteSet theorems: a 3-validator history with a catch-up round, a SetRound and
+    a prevote majority in round 2; POLInfo names round 2 and a third catch-up round of the same peer is
+    refused. *)
+Theorem C02_hvs_hypotheses_satisfiable :
+  exists s0 s, hvs_new 7 5 exh_vals = Some s0 /\ hvs_run s0 exh_ops = Some s /\
+               pol_info s = (2%N, exh_B) /\ wf_vals exh_vals /\
+               snd (hvs_add_vote s (exh_vote 0 11 8 5) 1) = HUnwanted.
+Proof. exact hvs_example. Qed.
+Print Assumptions C02_hvs_hypotheses_satisfiable.
+
 (** Tie to the Go SOURCE (translator /verif/go2coq, regenerated from /repo on every check): the model's
     quorum arithmetic, running sums, quorum-crossing test, VerifyCommit threshold test, cap test and
     safeAddClip/safeSubClip are the expressions of types/vote_set.go and types/validator_set.go
-    themselves, on the operands named there (statement spelled out in SourceTie.v). *)
+    themselves, on the operands named there; second part: every single-atom condition (atom and polarity),
+    field store, constant/call assignment and loop header of addVote, getVote, addVerifiedVote,
+    SetPeerMaj23, MakeCommit, the accessors, Vote.CommitSig/Verify/ValidateBasic, CommitSig.*,
+    Commit.ValidateBasic, CommitToVoteSet, VerifyCommit, GetByIndex, updateTotalVotingPower, BlockID /
+    PartSetHeader and consensus/types.HeightVoteSet (statement spelled out in SourceTie.v). *)
 From Kardia Require Import C02.SourceTie.
 Theorem C02_source_tie : C02_source_tie_statement.
 Proof. exact C02_source_tie_proof. Qed.
